@@ -339,6 +339,11 @@ def h_discover(ctx, ndev, maxinst, full=None):
     st, r = bus.run(m.autodiscover(addresses=(0, ndev - 1)))
     if st != "ok":
         if faulted and isinstance(r, DALISequenceError):
+            # giving up on a garbled bus is reported - but the devices are not left in quiescent mode
+            fr = bus.frames
+            ctx.prove(len(fr) >= 4 and E.and_(E.eq(fr[-1][0], 0xFFFE1E), E.eq(fr[-2][0], 0xFFFE1E)),
+                      "discovery gave up with %r and left the devices in quiescent mode" % (r,),
+                      key="discover/bracket-on-error")
             return "fault-error"
         ctx.fail("autodiscover: %s %r" % (st, r), key="discover/raised:" + type(r).__name__)
         return "raised"
